@@ -336,7 +336,7 @@ Section Spec.
     match td with
     | TScalar _ => true
     | TEnum vals => forallb (fun p => plain_value (snd p)) vals
-    | TInput fields _ => forallb (fun f => default_ok (snd f)) fields
+    | TInput fields _ => negb (dup_names (map fst fields)) && forallb (fun f => default_ok (snd f)) fields
     end.
 
   Definition env_ok : bool := forallb (fun p => tdef_ok (snd p)) E.
